@@ -88,7 +88,9 @@ Definition bin_f (op : nat) : extz -> extz -> extz :=
   | 2%nat => a2 ExtZArith Sub | 3%nat => a2 ExtZArith Add
   | 4%nat => fun a b => vmax (neg a) b
   | 5%nat => fun a b => neg (a1 ExtZArith Abs (a2 ExtZArith Sub a b))
-  | _ => fun a b => a1 ExtZArith Abs (a2 ExtZArith Sub a b)
+  | 6%nat => fun a b => a1 ExtZArith Abs (a2 ExtZArith Sub a b)
+  | 7%nat => a2 ExtZArith Mul | 8%nat => a2 ExtZArith Div
+  | _ => a2 ExtZArith Pow
   end.
 Definition run_oisect (op : nat) (s1 s2 : list (tz * extz)) :=
   @oisect_e ExtZVal (bin_f op) s1 s2.
